@@ -255,6 +255,7 @@ type errPVCNSLister struct {
 func (l *errPVCNSLister) Get(name string) (*corev1.PersistentVolumeClaim, error) {
 	if f := l.r.cur.PVCListerHook; f != nil {
 		if err := f(name); err != nil {
+			l.r.cur.lookupFailed = true
 			return nil, err
 		}
 	}
@@ -330,6 +331,8 @@ type Cluster struct {
 	PVCListerHook func(name string) error
 	// ListPerm permutes pod cache listings (0 = sorted by name).
 	ListPerm uint64
+	// lookupFailed: PVCListerHook made a cache lookup fail during the running reconcile
+	lookupFailed bool
 
 	// journal: every pod write since the pod cache last caught up with that pod, in order. A watch
 	// delivers each of them; RefreshPod(notify) replays them through the registered handlers (a
